@@ -204,14 +204,30 @@ class Cache(object):
         return orig_seq
 
     def _dump_flow_and_yield(self, flow):
-        # fill cache and yield values
-        with open(self._filename, "wb") as f:
-            dump = lambda val: self._dump(val, f, self.protocol)
-            for val in flow:
-                # if there were an error in a next element,
-                # our value will be saved first (before yielding)
-                dump(val)
-                yield val
+        # fill cache and yield values.
+        # Values are written to a temporary file, which becomes the cache
+        # only when the whole flow has been exhausted. Otherwise
+        # (an error in another element, or if the flow was not consumed
+        # till the end) an incomplete cache would be used as a complete one.
+        tmp_filename = self._filename + ".tmp"
+        completed = False
+        try:
+            with open(tmp_filename, "wb") as f:
+                dump = lambda val: self._dump(val, f, self.protocol)
+                for val in flow:
+                    dump(val)
+                    yield val
+            completed = True
+        finally:
+            if completed:
+                # os.replace is missing in Python 2
+                getattr(os, "replace", os.rename)(tmp_filename,
+                                                  self._filename)
+            else:
+                try:
+                    os.remove(tmp_filename)
+                except OSError:
+                    pass
 
 
     def _load_flow(self):
